@@ -1,5 +1,290 @@
-(* C04 -- proofs about the machine (placeholder being extended) *)
-From PV Require Import C04.Spec.
+(* C04 -- the theorems about all histories, assembled from ProofsTable (process table,
+   pids, pid_exists), ProofsLoop / ProofsIter (generators, cache) and ProofsText. *)
+From PV Require Import C04.Spec C04.ProofsTable C04.ProofsLoop C04.ProofsIter.
+From PV Require Export C04.ProofsText.
 
-Lemma cache_clear_empties valid s : pmap (fst (step valid s CacheClear)) = [].
+(* ---------------------------------------------------------------- pids / pid_exists over histories *)
+Theorem pids_exact_h valid h :
+  let s := final valid h in
+  tbl s <> [] ->
+  exists l, snd (step valid s Pids) = OPids l
+            /\ StronglySorted Z.lt l
+            /\ (forall n, In n l <-> In n (listing (tbl s)))
+            /\ (exists low r, l = low :: r /\ lowest (fst (step valid s Pids)) = Some low
+                              /\ forall n, In n (listing (tbl s)) -> low <= n).
+Proof. intros s Hne. apply pids_exact; [apply wf_final|exact Hne]. Qed.
+
+Theorem pid_exists_spec_h valid h n :
+  let s := final valid h in
+  (n = 0 -> tbl s <> []) ->
+  snd (step valid s (PidExists n)) = OBool (zmem n (listing (tbl s))).
+Proof. intros s Hne. apply pid_exists_spec; [apply wf_final|exact Hne]. Qed.
+
+Theorem pid_exists_false_h valid h n :
+  let s := final valid h in
+  n <> 0 ->
+  (exists k, In k (tbl s) /\ In n (k_tids k)) \/ n < 0 \/ PIDMAX < n ->
+  snd (step valid s (PidExists n)) = OBool false.
+Proof.
+  intros s Hn0 H. unfold s. rewrite pid_exists_spec_h by (intros; contradiction).
+  f_equal. pose proof (wf_final valid h) as Hwf.
+  destruct H as [Ht|Hr].
+  - now apply (tid_not_listed _ _ Hwf).
+  - now apply (out_of_range_not_listed _ _ Hwf).
+Qed.
+
+(* ---------------------------------------------------------------- what a generator yields *)
+Theorem iter_yields valid h g :
+  let gh := snd (irun valid h) g in
+  StronglySorted Z.gt (map ypid (gh_yields gh)) /\
+  forall p o i, In (p, o, i) (gh_yields gh) ->
+    In p (gh_list gh) /\
+    ((dget p (gh_cache gh) = Some o /\ ~ In p (gh_marked gh))
+     \/ (dget p (gh_cache gh) = None /\ (gh_heap0 gh <= o)%nat)) /\
+    match gh_attrs gh with
+    | None => True
+    | Some l => attrs_valid valid l = true /\ i = Some (spec_keys valid l)
+    end.
+Proof.
+  intros gh. pose proof (Inv_irun valid h g) as H. apply ginv_yields in H. destruct H as [Hs Hy].
+  split; [exact Hs|]. intros p o i Hin. rewrite Forall_forall in Hy. exact (Hy _ Hin).
+Qed.
+
+(* ghost bookkeeping only: 'exhausted' is set together with 'done' *)
+Definition exh_ok (gh : ghost) : Prop := gh_exhausted gh = true -> gh_done gh = true.
+
+Lemma exh_gupd s e o G : (forall g, exh_ok (G g)) -> forall g, exh_ok (gupd s e o G g).
+Proof.
+  intros H g. destruct e; cbn [gupd]; try apply H.
+  - (* Reap *)
+    destruct (alive (tbl s) pid); [|apply H]. unfold gh_vanish.
+    destruct (gh_started (G g) && negb (gh_done (G g))); [|apply H].
+    unfold exh_ok. cbn [gh_exhausted gh_done]. apply H.
+  - (* IterNew *)
+    unfold gset. destruct (Nat.eqb g (ngen s)); [|apply H]. unfold exh_ok. cbn. discriminate.
+  - (* IterNext *)
+    destruct (Nat.leb (ngen s) g0); [apply H|]. destruct (gh_done (G g0)) eqn:Ed; [apply H|].
+    unfold gset. destruct (Nat.eqb g g0); [|apply H].
+    assert (H1 : exh_ok (if gh_started (G g0) then G g0 else gh_enter s (G g0))).
+    { destruct (gh_started (G g0)); [apply H|]. unfold exh_ok. cbn. discriminate. }
+    destruct o; try exact H1; unfold exh_ok; cbn [gh_push gh_finish gh_exhausted gh_done]; try reflexivity.
+  - (* IterClose *)
+    destruct (Nat.leb (ngen s) g0); [apply H|]. destruct (gh_done (G g0)) eqn:Ed; [apply H|].
+    unfold gset. destruct (Nat.eqb g g0); [|apply H]. unfold exh_ok. cbn. reflexivity.
+Qed.
+
+Lemma exh_fold valid h : forall sg : st * ghosts, (forall g, exh_ok (snd sg g)) ->
+  forall g, exh_ok (snd (fold_left (fun sg e => fst (istep valid sg e)) h sg) g).
+Proof.
+  induction h as [|e h IH]; intros sg H; [exact H|]. cbn [fold_left]. apply IH.
+  intros g.
+  assert (E : snd (fst (istep valid sg e)) = gupd (fst sg) e (snd (step valid (fst sg) e)) (snd sg)).
+  { unfold istep. destruct (step valid (fst sg) e); reflexivity. }
+  rewrite E. now apply exh_gupd.
+Qed.
+
+Lemma exh_irun valid h g : exh_ok (snd (irun valid h) g).
+Proof. apply exh_fold. intros g'. unfold exh_ok. cbn. reflexivity. Qed.
+
+Theorem iter_complete valid h g :
+  let gh := snd (irun valid h) g in
+  gh_exhausted gh = true ->
+  forall p, In p (gh_list gh) ->
+    In p (map ypid (gh_yields gh)) \/ In p (gh_vanished gh)
+    \/ ((exists o, dget p (gh_cache gh) = Some o) /\ (In p (gh_marked gh) \/ req_ppid valid (gh_attrs gh) = true)).
+Proof.
+  intros gh Hex p Hp. pose proof (Inv_irun valid h g) as H.
+  pose proof (exh_irun valid h g Hex) as Hdone. fold gh in Hdone.
+  destruct (gens (fst (irun valid h)) g) as [a|a pm rest|] eqn:Eg; cbn [ginv] in H; fold gh in H.
+  - destruct H as [_ [Hdn _]]. congruence.
+  - destruct H as [_ [Hdn _]]. congruence.
+  - destruct H as [_ [_ Hc]]. exact (Hc Hex p Hp).
+Qed.
+
+(* the class excluded: nothing cached was marked as reused, and ppid is not requested *)
+Corollary iter_complete_clean valid h g :
+  let gh := snd (irun valid h) g in
+  gh_exhausted gh = true ->
+  (forall p, In p (gh_marked gh) -> dget p (gh_cache gh) = None) -> req_ppid valid (gh_attrs gh) = false ->
+  forall p, In p (gh_list gh) -> In p (map ypid (gh_yields gh)) \/ In p (gh_vanished gh).
+Proof.
+  intros gh Hex Hm Hpp p Hp. destruct (iter_complete valid h g Hex p Hp) as [H|[H|[[o Ho] [H|H]]]].
+  - now left.
+  - now right.
+  - pose proof (Hm p H) as Hn. unfold gh in Hn. congruence.
+  - unfold gh in Hpp. congruence.
+Qed.
+
+(* the full statement (without the exclusion) is false of the code as written:
+   PID 5 is recycled, is_running() on the old object marks it, and the next complete
+   iteration yields no Process for the living PID 5 *)
+Definition refute_h : list ev :=
+  [Spawn 5 100; Spawn 9 100; IterNew None; IterNext 0; IterNext 0; IterNext 0;
+   Reap 5; Spawn 5 200; IsRunning 0; IterNew None; IterNext 1; IterNext 1].
+
+Theorem iter_complete_refuted :
+  exists valid h g p,
+    let sg := irun valid h in
+    let gh := snd sg g in
+    gh_exhausted gh = true /\ In p (gh_list gh) /\ alive (tbl (fst sg)) p = true
+    /\ zmem p (map ypid (gh_yields gh)) = false /\ zmem p (gh_vanished gh) = false.
+Proof.
+  exists [0; 1; 2], refute_h, 1%nat, 5. vm_compute. repeat split; auto.
+Qed.
+
+(* ---------------------------------------------------------------- exceptions *)
+Theorem iter_exceptions valid h g x :
+  let sg := irun valid h in
+  snd (step valid (fst sg) (IterNext g)) = OExc x ->
+  (x = ValueError /\ exists l, gh_attrs (snd sg g) = Some l /\ attrs_valid valid l = false)
+  \/ (x = IndexError /\ tbl (fst sg) = []).
+Proof.
+  intros sg Hx. destruct (Nat.leb (ngen (fst sg)) g) eqn:Hg.
+  - cbn [step] in Hx. rewrite Hg in Hx. discriminate.
+  - pose proof (Inv_irun valid h) as HI. fold sg in HI. destruct sg as [s G].
+    exact (proj1 (proj2 (next_inv valid s G g HI Hg)) x Hx).
+Qed.
+
+(* ---------------------------------------------------------------- the cache *)
+Lemma done_flip s e o G g :
+  gh_done (G g) = false -> gh_done (gupd s e o G g) = true ->
+  (e = IterNext g \/ e = IterClose g) /\ Nat.leb (ngen s) g = false.
+Proof.
+  intros Hd Hd'. destruct e; cbn [gupd] in Hd'; try congruence.
+  - destruct (alive (tbl s) pid); [|congruence]. unfold gh_vanish in Hd'.
+    destruct (gh_started (G g) && negb (gh_done (G g))); cbn [gh_done] in Hd'; congruence.
+  - unfold gset in Hd'. destruct (Nat.eqb g (ngen s)); [cbn in Hd'|]; congruence.
+  - destruct (Nat.leb (ngen s) g0) eqn:Hl; [congruence|]. destruct (gh_done (G g0)); [congruence|].
+    unfold gset in Hd'. destruct (Nat.eqb g g0) eqn:E; [|congruence].
+    apply Nat.eqb_eq in E. subst g0. split; [now left|exact Hl].
+  - destruct (Nat.leb (ngen s) g0) eqn:Hl; [congruence|]. destruct (gh_done (G g0)); [congruence|].
+    unfold gset in Hd'. destruct (Nat.eqb g g0) eqn:E; [|congruence].
+    apply Nat.eqb_eq in E. subst g0. split; [now right|exact Hl].
+Qed.
+
+Theorem finish_installs valid h e g :
+  let sg := irun valid h in
+  let r := istep valid sg e in
+  let gh' := snd (fst r) g in
+  let cache' := pmap (fst (fst r)) in
+  gh_done (snd sg g) = false -> gh_done gh' = true -> gh_started gh' = true ->
+  snd r <> OOom -> tbl (fst sg) <> [] ->
+  (forall p o, dget p cache' = Some o ->
+     In p (gh_list gh') /\
+     ((dget p (gh_cache gh') = Some o /\ ~ In p (gh_marked gh')) \/ (gh_heap0 gh' <= o)%nat)) /\
+  (forall p o i, In (p, o, i) (gh_yields gh') -> dget p cache' = Some o).
+Proof.
+  intros sg r gh' cache' Hd Hd' Hst' Hoom Hne.
+  pose proof (Inv_irun valid h) as HI. fold sg in HI. destruct sg as [s G] eqn:Esg.
+  assert (E : fst r = (fst (step valid s e), gupd s e (snd (step valid s e)) G) /\ snd r = snd (step valid s e)).
+  { subst r. unfold istep. cbn [fst snd]. destruct (step valid s e); split; reflexivity. }
+  destruct E as [E1 E2].
+  assert (HF : Jfin valid (frame_of gh') cache' (gh_yields gh')).
+  { subst gh' cache'. rewrite E1 in *. cbn [fst snd] in *.
+    destruct (done_flip s e _ G g Hd Hd') as [[He|He] Hl]; subst e.
+    - rewrite E2 in Hoom. exact (proj1 (proj2 (proj2 (next_inv valid s G g HI Hl))) Hd Hd' Hoom Hne).
+    - cbn [gupd] in *. rewrite Hl in *. rewrite Hd in *. rewrite gset_same in *.
+      cbn [gh_finish gh_started gh_yields frame_of gh_attrs gh_list gh_cache gh_marked gh_heap0] in *.
+      pose proof (HI g) as Hg. cbn [fst snd] in Hg. cbn [step]. rewrite Hl.
+      destruct (gens s g) as [a|a pm rest|]; cbn [ginv] in Hg.
+      + destruct Hg as [H1 _]. congruence.
+      + destruct Hg as [_ [_ [_ HJ]]]. cbn [fst mk pmap]. exact (J_Jfin _ _ _ _ _ _ _ _ HJ).
+      + destruct Hg as [H1 _]. congruence. }
+  split.
+  - intros p o Hg. exact (f_pm _ _ _ _ HF p o Hg).
+  - intros p o i Hin. exact (f_ypm _ _ _ _ HF (p, o, i) Hin).
+Qed.
+
+Theorem cache_clear_empties valid s : pmap (fst (step valid s CacheClear)) = [].
 Proof. reflexivity. Qed.
+
+(* only cache_clear() and a generator that finishes change the cache *)
+Theorem pmap_frame valid s e :
+  match e with
+  | CacheClear | IterNext _ | IterClose _ => True
+  | _ => pmap (fst (step valid s e)) = pmap s
+  end.
+Proof.
+  destruct e; cbn [step]; try exact I.
+  - destruct (_ && _); reflexivity.
+  - reflexivity.
+  - reflexivity.
+  - destruct (_ && _); reflexivity.
+  - reflexivity.
+  - destruct (pids_sorted _) as [[l low]| |]; reflexivity.
+  - destruct (n <? 0); [reflexivity|]. destruct (n =? 0); [|reflexivity].
+    destruct (pids_sorted _) as [[l low]| |]; reflexivity.
+  - reflexivity.
+  - destruct (Nat.leb _ _); [reflexivity|]. destruct (is_running_obj _ _ _ _) as [[r ob'] ru']. reflexivity.
+Qed.
+
+Theorem pmap_yield valid h g p ob i :
+  let s := fst (irun valid h) in
+  snd (step valid s (IterNext g)) = OYield p ob i -> pmap (fst (step valid s (IterNext g))) = pmap s.
+Proof.
+  intros s Hy. destruct (Nat.leb (ngen s) g) eqn:Hg.
+  - cbn [step] in Hy. rewrite Hg in Hy. discriminate.
+  - pose proof (Inv_irun valid h) as HI. unfold s in *. destruct (irun valid h) as [s0 G]. cbn [fst] in *.
+    exact (proj2 (proj2 (proj2 (proj2 (next_inv valid s0 G g HI Hg)))) p ob i Hy).
+Qed.
+
+(* ---------------------------------------------------------------- corollaries named by the property *)
+Corollary reused_refresh valid h g p o i :
+  let gh := snd (irun valid h) g in
+  In (p, o, i) (gh_yields gh) -> In p (gh_marked gh) -> (gh_heap0 gh <= o)%nat.
+Proof.
+  intros gh Hin Hm. destruct (proj2 (iter_yields valid h g) p o i Hin) as [_ [[[_ Hn]|[_ Hf]] _]].
+  - contradiction.
+  - exact Hf.
+Qed.
+
+Corollary cache_clear_fresh valid h g p o i :
+  let gh := snd (irun valid h) g in
+  gh_cache gh = [] -> In (p, o, i) (gh_yields gh) -> (gh_heap0 gh <= o)%nat.
+Proof.
+  intros gh Hc Hin. destruct (proj2 (iter_yields valid h g) p o i Hin) as [_ [[[Hs _]|[_ Hf]] _]].
+  - fold gh in Hs. rewrite Hc in Hs. discriminate.
+  - exact Hf.
+Qed.
+
+(* is_running(): detects a recycled PID exactly through the start time, and marks it *)
+Theorem is_running_spec valid s o :
+  (o < nobj s)%nat -> o_gone (heap s o) = false -> o_reused (heap s o) = false ->
+  let ob := heap s o in
+  let r := step valid s (IsRunning o) in
+  match find_proc (tbl s) (o_pid ob) with
+  | None => snd r = OBool false /\ reused (fst r) = reused s
+  | Some k =>
+    if k_start k =? o_start ob
+    then snd r = OBool true /\ reused (fst r) = reused s
+    else snd r = OBool false /\ In (o_pid ob) (reused (fst r)) /\ o_reused (heap (fst r) o) = true
+  end.
+Proof.
+  intros Ho Hg Hr ob r. subst r ob. cbn [step].
+  assert (Hl : Nat.leb (nobj s) o = false) by (apply Nat.leb_gt; exact Ho).
+  rewrite Hl. unfold is_running_obj. rewrite Hg, Hr. cbn [orb].
+  destruct (find_proc (tbl s) (o_pid (heap s o))) as [k|]; [|split; reflexivity].
+  destruct (k_start k =? o_start (heap s o)); [split; reflexivity|].
+  cbn [fst snd mk reused heap]. split; [reflexivity|]. split.
+  - unfold set_add. destruct (zmem (o_pid (heap s o)) (reused s)) eqn:M; [now apply zmem_In|now left].
+  - unfold upd_heap. rewrite Nat.eqb_refl. reflexivity.
+Qed.
+
+Example history_ex :
+  let sg := irun [0; 1; 2] refute_h in
+  gh_exhausted (snd sg 0%nat) = true /\ map ypid (gh_yields (snd sg 0%nat)) = [9; 5]
+  /\ tbl (fst sg) <> [] /\ gh_marked (snd sg 1%nat) = [5].
+Proof. vm_compute. repeat split; discriminate. Qed.
+
+(* the hypotheses of iter_complete_clean and finish_installs are satisfiable *)
+Example clean_ex :
+  let gh := snd (irun [0; 1; 2] refute_h) 0%nat in
+  gh_exhausted gh = true /\ gh_marked gh = [] /\ req_ppid [0; 1; 2] (gh_attrs gh) = false /\ gh_list gh = [9; 5].
+Proof. vm_compute. repeat split. Qed.
+
+Example finish_ex :
+  let sg := irun [0; 1; 2] (firstn 5 refute_h) in
+  let r := istep [0; 1; 2] sg (IterNext 0) in
+  gh_done (snd sg 0%nat) = false /\ gh_done (snd (fst r) 0%nat) = true /\ gh_started (snd (fst r) 0%nat) = true
+  /\ snd r = OStop /\ tbl (fst sg) <> [].
+Proof. vm_compute. repeat split; discriminate. Qed.
